@@ -673,7 +673,6 @@ func apisimReplay(c *Ctx, rf *ReplayFile) []Violation {
 	return out
 }
 
-
 // The byte flavour is always called the way a caller with a reusable buffer would call it: the slices handed in are
 // overwritten as soon as the call has returned, and a returned slice is copied and then overwritten too. The database
 // must have taken what it needs by then (the string flavour cannot share memory with its caller at all).
